@@ -949,6 +949,45 @@ func apiCheckFunctions(t *testing.T) {
 		}
 		_ = firsts
 	}
+	// a function inside a filter operand is called once per member of the filtered container, in order - equal members
+	// included
+	for _, fc := range []struct{ path, doc string }{
+		{`$[?(@.rec() > 1)]`, `[3,3,5,3,"x","x",true,true,null,null]`}, {`$[?(@.rec())]`, `["a","b","b","c","c","c"]`}, {`$..[?(@.rec() == 1)]`, `[1,1,[1,1],{"a":1,"b":1}]`},
+		{`$[?(@.rec() == $[0])]`, `[2,2,2]`}, {`$[?(@.a.rec() > 0)]`, `[{"a":1},{"a":1},{"a":2}]`}, {`$.*[?(@.rec() < 9)]`, `{"p":[1,1],"q":[1,1]}`},
+	} {
+		doc := apiDecode(fc.doc)
+		calls = nil
+		apiCount()
+		_, _ = Retrieve(fc.path, doc, cfg)
+		// the members the operand is evaluated on: every member of every container the filter is applied to
+		var want []string
+		var containers []interface{}
+		switch {
+		case strings.HasPrefix(fc.path, `$..`):
+			refContainers(doc, &containers)
+		case strings.HasPrefix(fc.path, `$.*`):
+			containers = refWild(doc)
+		default:
+			containers = []interface{}{doc}
+		}
+		for _, c := range containers {
+			for _, m := range refWild(c) {
+				if strings.Contains(fc.path, `@.a.`) {
+					if mm, ok := m.(map[string]interface{}); ok {
+						if v, ok := mm["a"]; ok {
+							want = append(want, "rec:"+apiSnapshot(v))
+						}
+					}
+					continue
+				}
+				want = append(want, "rec:"+apiSnapshot(m))
+			}
+		}
+		if strings.Join(calls, "|") != strings.Join(want, "|") {
+			t.Errorf("REPRODUCED: %q on %s: the function in the filter operand was called with %v, the members are %v", fc.path, fc.doc, calls, want)
+			return
+		}
+	}
 	for _, ds := range docs {
 		for _, pre := range prefixes {
 			apiCount()
@@ -1168,6 +1207,13 @@ func apiCheckErrors(t *testing.T) {
 	// several failing branches: the reported step is one reached furthest along the path; there a missing member is
 	// preferred over a type mismatch
 	multi := []struct{ path, doc, want string }{
+		{`$.é.b`, `{"é":{}}`, `member did not exist (path=.b)`},
+		{`$.日本['b']`, `{"日本":{}}`, `member did not exist (path=['b'])`},
+		{`$.a['ü']`, `{"a":{}}`, `member did not exist (path=['ü'])`},
+		{`$['é'][0]`, `{"é":{}}`, `type unmatched (expected=array, found=map[string]interface {}, path=[0])`},
+		{`$.é.ü.ö`, `{"é":{"ü":1}}`, `type unmatched (expected=object, found=float64, path=.ö)`},
+		{`$['é','ü'].x`, `{"a":1}`, `member did not exist (path=['é','ü'])`},
+		{`$..['日'].x`, `{"日":1}`, `type unmatched (expected=object, found=float64, path=.x)`},
 		{`$[*][*,*].name.first`, `[{"x":{"name":{}}},{}]`, `member did not exist (path=.first)`},
 		{`$[*]['a',*].name.first`, `[{"a":{"name":{}}},{}]`, `member did not exist (path=.first)`},
 		{`$..[*,*].name.first`, `[[{"name":{}}],[[]]]`, `member did not exist (path=.first)`},
@@ -1536,6 +1582,7 @@ func refPool() []refStep {
 		{text: "[?(@.a)]", sel: refFilter(hasKey("a"))}, {text: "[?(@.b == 2)]", sel: refFilter(cmp("b", func(x float64) bool { return x == 2 }))}, {text: "[?(@.a > 1)]", sel: refFilter(cmp("a", func(x float64) bool { return x > 1 }))},
 		{text: "[?(!@.a)]", sel: refFilter(func(m interface{}) bool { return !hasKey("a")(m) })},
 		{text: "[-3::2]", sel: refSlice(ip(-3), nil, 2)},
+		{text: "[0,2,1,3]", sel: refConcat(refIndex(0), refIndex(2), refIndex(1), refIndex(3))}, {text: "[0,0,2]", sel: refConcat(refIndex(0), refIndex(0), refIndex(2))},
 	}
 	// recursive descent before each bracket form and a name
 	for _, st := range []refStep{pool[0], pool[3], pool[5], pool[7], pool[10], pool[14], pool[17]} {
